@@ -325,7 +325,14 @@ pub fn handle(req: &Value) -> Value {
                 });
             }
             let text = inv.to_string();
+            // first a document that is refused - an entry with a malformed checksum, then one whose version (or os) is none, or a syntax
+            // error -: what was refused has no part in the parse of the next document
+            let n = jarr(req, "artifacts").len();
+            let refused_doc = format!("[[artifacts]]\nversion = \"1.0.0\"\nos = \"linux\"\narch = \"amd64\"\nurl = \"u\"\nchecksum = \"sha256:zz\"\n\n[[artifacts]]\nversion = \"{}\"\nos = \"{}\"\narch = \"amd64\"\nurl = \"u\"\nchecksum = \"sha256:{}\"\n{}",
+                                      if n % 3 == 0 { "not-a-version" } else { "1.0.0" }, if n % 3 == 1 { "plan9" } else { "linux" }, "0".repeat(64), if n % 3 == 2 { "[[artifacts\n" } else { "" });
+            let refused_first = refused_doc.parse::<Inventory<semver::Version, sha2::Sha256, Option<Meta>>>().is_err();
             match text.parse::<Inventory<semver::Version, sha2::Sha256, Option<Meta>>>() {
+                Ok(back) if !refused_first => { let _ = back; json!({"text": text, "parse_err": "(the malformed document parsed before this one was accepted)"}) }
                 Ok(back) => {
                     let eq = back.artifacts == inv.artifacts;
                     // also resolve with a real semver::VersionReq
